@@ -255,6 +255,30 @@ def _observe_symbols(ctx, bad, label, seg, view, cclass):
 
 
 # ----------------------------------------------------------------------------- G: one object
+class _Sink:
+    """What one replay produces (the replays run in forked worker processes; the parent keeps the books)."""
+
+    def __init__(self, index):
+        self.index = index
+        self.mism = []
+        self.notes = []
+
+    def mismatch(self, clause, tag, case, expected, observed):
+        if len(self.mism) < 12:
+            self.mism.append((clause, tag, core.jnorm(case), core.jnorm(expected), core.jnorm(observed)))
+        else:
+            self.mism.append((clause, tag, None, None, None))
+
+
+_G = {}
+
+
+def _work(index):
+    sink = _Sink(index)
+    n = _replay(sink, _G['ctx'], _G['objs'][index], _G['ELFFile'])
+    return index, n, sink.mism, sink.notes
+
+
 def _replay(run, ctx, obj, ELFFile):
     A, S, B = obj['A'], obj['S'], obj['B']
     view = B['view']
@@ -284,7 +308,7 @@ def _replay(run, ctx, obj, ELFFile):
             return box[0].get_segment(ix['pdyn'])
         return fresh
 
-    turn = run.evaluations % 3
+    turn = run.index % 3
     views = (('section', opener(img1, 'section'), 'DynamicSection'), ('segment', opener(img1, 'segment'), 'DynamicSegment'),
              ('stripped', opener(img2, 'segment'), 'DynamicSegment'))
     obs = {}
@@ -300,7 +324,7 @@ def _replay(run, ctx, obj, ELFFile):
                 obs[label] = _observe_view(ctx, bad, label, fresh, view['tags'], vi == turn)
                 if label != 'section':
                     obs[label]['syms'], note = _observe_symbols(ctx, bad, label, fresh(), view, cclass)
-                    if note and len(run.notes) < 6 and cclass.startswith('gnu-empty-ld'):
+                    if note and cclass.startswith('gnu-empty'):
                         run.notes.append({'object': key['b'], 'view': label, 'observation': note})
         except core.CallTimeout as ex:
             bad('timeout', 'an answer', str(ex), label)
@@ -333,6 +357,7 @@ def _g_check(run, ELFFile):
     cfgs = ['Dynamic_quick'] if run.tier == 'quick' else ['Dynamic_thorough']
     ctx = None
     ntags = 0
+    undet = []
     for cfg in cfgs:
         res = run.tlc('Dynamic', cfg, env=JVM)
         objs = {}
@@ -348,18 +373,42 @@ def _g_check(run, ELFFile):
             slot[c['part']] = c
         if ctx is None:
             raise core.MachineryError('Dynamic/%s emitted no tables record' % cfg)
-        for k, obj in objs.items():
-            if set(obj) != {'A', 'S', 'B'}:
-                raise core.MachineryError('Dynamic/%s: incomplete object %s: %s' % (cfg, k[:200], sorted(obj)))
-            view = obj['B']['view']
-            nontriv = len(view['tags']) > 1
-            run.count(core.digest(k), nontrivial=nontriv)
-            if nontriv and len(run.samples) < 3 and run.evaluations % 397 == 11:
-                run.samples.append({'object': obj['A']['key'], 'tags': [[denote(t[0]), sorted(t[1]), denote(t[2]), t[3]] for t in view['tags']][:8],
-                                    'count': view['count'], 'symbols': len(view['syms'])})
-            ntags += _replay(run, ctx, obj, ELFFile)
+        keys = sorted(objs)
+        for k in keys:
+            if set(objs[k]) != {'A', 'S', 'B'}:
+                raise core.MachineryError('Dynamic/%s: incomplete object %s: %s' % (cfg, k[:200], sorted(objs[k])))
+        _G.update(ctx=ctx, objs=[objs[k] for k in keys], ELFFile=ELFFile)
+        nproc = max(1, min(core.NPROC, 8))
+        pool = None
+        try:
+            if nproc > 1 and len(keys) > 64:
+                import multiprocessing
+                pool = multiprocessing.get_context('fork').Pool(nproc)
+                results = pool.imap(_work, range(len(keys)), chunksize=16)
+            else:
+                results = map(_work, range(len(keys)))
+            for index, n, mism, notes in results:
+                obj = _G['objs'][index]
+                view = obj['B']['view']
+                nontriv = len(view['tags']) > 1
+                run.count(core.digest(keys[index]), nontrivial=nontriv)
+                if nontriv and len(run.samples) < 3 and run.evaluations % 397 == 11:
+                    run.samples.append({'object': obj['A']['key'],
+                                        'tags': [[denote(t[0]), sorted(t[1]), denote(t[2]), t[3]] for t in view['tags']][:8],
+                                        'count': view['count'], 'symbols': len(view['syms'])})
+                ntags += n
+                for clause, tag, case, exp, got in mism:
+                    run.mismatch(clause, tag, case if case is not None else {'object': obj['A']['key']}, exp, got)
+                for note in notes:
+                    if len(undet) < 8:
+                        undet.append(note)
+        finally:
+            if pool is not None:
+                pool.terminate()
+            _G.clear()
     run.validated += run.evaluations
     run.extra['tags_replayed'] = ntags
+    run.extra['count_not_determined_samples'] = undet
     return ctx
 
 
